@@ -238,7 +238,7 @@ func cmdCheck(args []string) int {
 			if !hasTag(o.Tags, *prop) {
 				continue
 			}
-			if o.Kind == "cover" && *tier != "thorough" {
+			if o.Kind == "cover" && *tier != "thorough" && !o.LastRet {
 				continue
 			}
 			jobs = append(jobs, &job{vc: r.VC, o: o})
